@@ -1,5 +1,6 @@
 #pragma once
 #include <map>
+#include <set>
 #include <string>
 
 #include "fplan.h"
@@ -18,6 +19,8 @@ struct Result
     long crash_points = 0, fault_runs = 0;
     // C10: where the failing crash / failure sits (for the derived single-fault plan)
     int at_op = -1, crash_b = -1, crash_torn = 0, fault_call = -1, fault_nth = 0, fault_errno = 0;
+    // rotated files that were there before operation i and are gone after it (plain names), per operation
+    std::map<int, std::set<std::string>> vanished;
 };
 
 Result run_history(const FPlan &plan);
